@@ -50,12 +50,126 @@ def one_case(V, E, X):
     return G, obs
 
 
+# ---------- node objects that are not ints (the model works on indices; results are mapped back through the
+# ---------- objects themselves, so a result node that is not one of G's node OBJECTS cannot be mapped) ----------
+class Station(object):
+    """an ordinary hashable object: equality and hash by identity"""
+    def __init__(self, name):
+        self.name = name
+
+    def __repr__(self):
+        return 'Station(%s)' % self.name
+
+
+FAMILIES = {
+    'str': lambda i: 's%d' % i,
+    'tuple': lambda i: (i, 'x'),
+    'frozenset': lambda i: frozenset([i, -i - 1]),
+    'object': lambda i: Station(i),
+    'tuple_of_objects': lambda i: (Station(i), i),
+    'mixed': lambda i: [i, 's%d' % i, (i,), Station(i), frozenset([i]), -i - 1.5][i % 6],
+}
+
+
+def exotic_case(family, n, E, X):
+    """same observations as one_case, in INDEX space; 'foreign' marks a node that is not one of G's node objects"""
+    from pyModelChecking.graph import DiGraph
+    objs = [FAMILIES[family](i) for i in range(n)]
+    extra = FAMILIES[family](n + 7)                       # a node object that is not in G
+    idx = {}
+    for i, o in enumerate(objs):
+        idx[o] = i
+
+    def num(o):
+        try:
+            return idx.get(o, 'foreign:%s' % type(o).__name__)
+        except TypeError:
+            return 'foreign:unhashable'
+
+    def nset(G2):
+        return (sorted((num(k) for k in G2._next), key=str),
+                sorted(((num(a), num(b)) for a, ds in G2._next.items() for b in ds), key=str))
+    G = DiGraph(V=objs, E=[(objs[a], objs[b]) for a, b in E])
+    before = nset(G)
+    Xo = [objs[i] if i < n else extra for i in X]
+    obs = {}
+    r = call(lambda: G.get_reachable_set_from(list(Xo)))
+    obs['reach'] = ('ok', sorted((num(o) for o in r[1]), key=str)) if r[0] == 'ok' else r
+    r = call(lambda: G.get_reversed_graph())
+    obs['rev'] = ('ok', nset(r[1])) if r[0] == 'ok' else r
+    r = call(lambda: G.get_subgraph(list(Xo)))
+    obs['sub'] = ('ok', nset(r[1])) if r[0] == 'ok' else r
+    r = call(lambda: G.clone())
+    obs['clone'] = ('ok', nset(r[1])) if r[0] == 'ok' else r
+    if r[0] == 'ok':
+        C = r[1]
+        # the clone must be USABLE with G's own node objects
+        q = call(lambda: [sorted((num(d) for d in C.next(o)), key=str) for o in objs])
+        obs['clone_next'] = q
+        obs['clone_shares'] = any(C._next[k] is G._next.get(k) for k in C._next if k in G._next)
+    obs['unchanged'] = (nset(G) == before)
+    g = [[num(k), [num(d) for d in ds]] for k, ds in G._next.items()]
+    return g, obs
+
+
+def run_exotic(R):
+    rng = random.Random(R.seed + 13)
+    cases = []
+    for family in sorted(FAMILIES):
+        for _ in range(120 if R.thorough else 14):
+            n = rng.randint(1, 6)
+            E = rand_digraph(rng, n)
+            X = rng.sample(range(n), rng.randint(0, n))
+            if rng.random() < 0.2:
+                X.append(n)                      # a foreign node object
+            cases.append((family, n, E, X))
+    cmds, meta = [], []
+    for (family, n, E, X) in cases:
+        g, obs = exotic_case(family, n, E, X)
+        cmds += [['reach', g, X], ['rev', g], ['sub', g, X], ['clone', g]]
+        meta.append((family, n, E, X, obs, g))
+    outs = model_batch_parallel(cmds)
+    hist = {}
+    for i, (family, n, E, X, obs, g) in enumerate(meta):
+        R.evaluations += 1
+        hist[family] = hist.get(family, 0) + 1
+        o_reach, o_rev, o_sub, o_clone = outs[4 * i:4 * i + 4]
+        m = {'reach': ('ok', sorted(ints(o_reach[1]), key=str)) if o_reach[0] == 'ok' else ('err', o_reach[1]),
+             'rev': ('ok', mset(o_rev)), 'sub': ('ok', mset(o_sub)), 'clone': ('ok', mset(o_clone))}
+        m['clone_next'] = ('ok', [sorted(int(d) for d in ds) for _, ds in sorted(((int(k), ds) for k, ds in o_clone))])
+        bad = []
+        for k in ('reach', 'rev', 'sub', 'clone'):
+            a = obs.get(k)
+            b = m[k]
+            if k == 'reach':
+                same = tuple(a) == tuple(b)
+            else:
+                same = a[0] == 'ok' and (sorted(a[1][0], key=str), sorted(a[1][1], key=str)) == (sorted(b[1][0], key=str), sorted(b[1][1], key=str))
+            if not same:
+                bad.append(k)
+        if obs.get('clone', ('err',))[0] == 'ok':
+            cn = obs['clone_next']
+            if cn[0] != 'ok' or [sorted(x, key=str) for x in cn[1]] != m['clone_next'][1]:
+                bad.append('clone not usable with the node objects of G')
+            if obs.get('clone_shares'):
+                bad.append('aliasing')
+        if not obs['unchanged']:
+            bad.append('G modified')
+        if bad:
+            R.violation('graph operation on non-int node objects (%s) differs from the proved model: %s' % (family, ','.join(bad)),
+                        {'family': family, 'n': n, 'E': E, 'X': X, 'impl': obs, 'model': m, 'differs': bad, 'stream': 'exotic node objects'})
+        elif len(E) > 0:
+            R.nontriv(('exotic', family, n, tuple(sorted(E)), tuple(sorted(X))))
+    R.cov['node_object_families'] = hist
+
+
 def run(R):
     R.rule = ('(digraph, node subset X) pairs: all digraphs with <= 3 nodes x all subsets of nodes+one foreign node '
               '(every 11th 4-node graph in quick, every 2nd in thorough), random n <= 12; observables: reachable set / RuntimeError, '
               'reversed graph, double reversal, induced subgraph, clone, aliasing and before/after snapshot of G; '
               'non-trivial = reach set strictly between X and all nodes, or subgraph drops at least one edge and keeps one')
     rng = R.rng
+    run_exotic(R)
     cases = []
     for n in range(0, 4):
         nodes = list(range(n))
@@ -119,6 +233,13 @@ def run(R):
 
 def replay(R, data):
     d = data['data']
+    if d.get('stream') == 'exotic node objects':
+        g, obs = exotic_case(d['family'], d['n'], [tuple(e) for e in d['E']], d['X'])
+        print('impl :', obs)
+        print('model:', model_batch([['reach', g, d['X']], ['rev', g], ['sub', g, d['X']], ['clone', g]]))
+        if obs['clone'][0] != 'ok' or obs['clone_next'][0] != 'ok' or any('foreign' in str(x) for x in obs['clone'][1][0]):
+            R.violation('replayed', d)
+        return
     G, obs = one_case(d['V'], [tuple(e) for e in d['E']], d['X'])
     g = graph_sx(G)
     o = model_batch([['reach', g, d['X']], ['rev', g], ['sub', g, d['X']], ['clone', g]])
